@@ -8,6 +8,7 @@ import (
 	"strconv"
 	"strings"
 	"sync"
+	"sync/atomic"
 	"time"
 
 	"github.com/enbility/ship-go/model"
@@ -47,6 +48,13 @@ type ship1Opts struct {
 	amOrders     []string // order variants of the access-methods exchange (C09)
 	noAmDeviants bool
 	timelyTail   bool // after the event budget the peer keeps answering at once (no input-free quiet period)
+	// warmup: probability that the process has had an earlier connection - a complete
+	// handshake of another ShipConnection with a cooperative peer, closed again - before the
+	// unit under test is created ("state that is only wrong the second time")
+	warmup float64
+	// slowK / slowD: the cooperative peer's slowK-th message (1-based) comes slowD late
+	slowK int
+	slowD time.Duration
 }
 
 type ship1 struct {
@@ -78,6 +86,10 @@ type ship1 struct {
 	asyncTrig  chan struct{}
 	delivered  []string
 	devClasses map[string]int
+	coopN      int
+	// epoch counts the entries into the unit under test (a delivery, a user operation, a
+	// timer expiry): what happens within one epoch is one reaction of the state machine
+	epoch atomic.Int64
 }
 
 func (s *ship1) enqueue(f ...string) {
@@ -148,6 +160,17 @@ func (s *ship1) onTx(kind string, b []byte) {
 	}
 }
 
+// coopDeliver hands over the cooperative peer's next message - late, if this is the one
+// the scenario wants late.
+func (s *ship1) coopDeliver(f string) {
+	s.coopN++
+	if s.coopN == s.o.slowK && s.o.slowD > 0 {
+		s.x.Ev("peer-slow", classify([]byte(f)), s.o.slowD.String(), int(s.state()))
+		simrt.Sleep(s.o.slowD)
+	}
+	s.deliver(f, "coop:"+classify([]byte(f)))
+}
+
 func (s *ship1) maybeAnnounce() {
 	if s.role == "server" && s.sentReady && s.gotReady && !s.sentAnn {
 		s.sentAnn = true
@@ -168,6 +191,7 @@ func (s *ship1) deliver(f string, class string) {
 	if s.o.lateFrames == 0 && s.tw.isClosed() {
 		return
 	}
+	s.epoch.Add(1)
 	s.x.Ev("rx", class, "", int(st))
 	s.x.SigAdd(fmt.Sprintf("rx:%d:%s", st, class))
 	s.conn.HandleIncomingWebsocketMessage([]byte(f))
@@ -209,7 +233,11 @@ func newShip1(x *Ctx, o ship1Opts) *ship1 {
 	s.tw = &stubWriter{x: x, name: "U", failAt: o.writeFailAt, failOnce: o.failOnce, onTx: s.onTx}
 	x.SigAdd("role="+s.role, "trust="+s.trustMode, "hello="+s.helloMode, "user="+s.userPlan)
 
+	warm := x.Feat(FeatMoreInputs) && x.Chance("warm-up-connection", o.warmup)
 	x.Go("U:pump", func() {
+		if warm {
+			shipWarmup(x)
+		}
 		role := ship.ShipRoleClient
 		if s.role == "server" {
 			role = ship.ShipRoleServer
@@ -241,7 +269,7 @@ func newShip1(x *Ctx, o ship1Opts) *ship1 {
 					if f == "" {
 						break
 					}
-					s.deliver(f, "coop:"+classify([]byte(f)))
+					s.coopDeliver(f)
 				}
 				simrt.Sleep(time.Second)
 			}
@@ -268,10 +296,12 @@ func newShip1(x *Ctx, o ship1Opts) *ship1 {
 			switch s.userPlan {
 			case "approve":
 				s.prov.set(func() { s.prov.paired = true })
+				s.epoch.Add(1)
 				x.Ev("user-approve", "", "", int(st))
 				s.conn.ApprovePendingHandshake()
 				x.Ev("user-approve-ret", "", "", 0)
 			case "cancel":
+				s.epoch.Add(1)
 				x.Ev("user-cancel", "", "", int(st))
 				s.conn.AbortPendingHandshake()
 				x.Ev("user-cancel-ret", "", "", 0)
@@ -343,7 +373,7 @@ func (s *ship1) peerLoop() {
 			}
 			s.mu.Unlock()
 			if f != "" {
-				s.deliver(f, "coop:"+classify([]byte(f)))
+				s.coopDeliver(f)
 			} else {
 				d := sleepChoices[x.Choose("sleep", len(sleepChoices))]
 				x.Ev("sleep", d.String(), "", 0)
@@ -517,4 +547,41 @@ func isProgressState(st int) bool {
 
 func isTerminalState(st int) bool {
 	return st == 14 || st == 15 || st == 16 || st == 17 || st == 39
+}
+
+// shipWarmup: an earlier connection of this process - a complete handshake (either role) with
+// a cooperative peer that presents the SHIP ID "EARLIER", then closed. It leaves no events.
+func shipWarmup(x *Ctx) {
+	w := &ship1{x: x, helloMode: "ready", amOrder: "normal", presented: fAccess("EARLIER"), devClasses: map[string]int{}}
+	w.role = Pick(x, "warm-up-role", []string{"client", "server"})
+	w.prov = &stubProvider{x: x, name: "W", quiet: true, paired: true, allowWaiting: true}
+	w.tw = &stubWriter{x: x, name: "W", quiet: true, onTx: w.onTx}
+	role := ship.ShipRoleClient
+	if w.role == "server" {
+		role = ship.ShipRoleServer
+	}
+	w.conn = ship.NewConnectionHandler(w.prov, w.tw, role, "LOCALID", "ffffffffffffffffffffffffffffffffffffffff", "")
+	w.conn.Run()
+	if w.role == "server" {
+		w.mu.Lock()
+		w.enqueue(fInit)
+		w.mu.Unlock()
+	}
+	for i := 0; i < 40; i++ {
+		w.mu.Lock()
+		var f string
+		if len(w.queue) > 0 {
+			f = w.queue[0]
+			w.queue = w.queue[1:]
+		}
+		w.mu.Unlock()
+		if f == "" {
+			break
+		}
+		w.conn.HandleIncomingWebsocketMessage([]byte(f))
+	}
+	if st, _ := w.conn.ShipHandshakeState(); st == model.SmeStateComplete {
+		x.Probe("earlier-connection-completed")
+	}
+	w.conn.CloseConnection(false, 0, "")
 }
